@@ -144,8 +144,13 @@ func (pc *PipeCase) feed() <-chan tree.Trees {
 
 // runPipe executes the case with the given thread count and schedule.
 func runPipe(t *testing.T, pc *PipeCase, cpus int, sc SchedCase, maxSteps int) *PipeResult {
+	return runPipeT(t, pc, cpus, sc, maxSteps, nominalStmts)
+}
+
+// runPipeT: total = statement count of a reference run, to which the pre-emption points of sc are scaled.
+func runPipeT(t *testing.T, pc *PipeCase, cpus int, sc SchedCase, maxSteps, total int) *PipeResult {
 	pr := &PipeResult{Recs: map[int]CmpRec{}}
-	cfg := sc.Config(maxSteps)
+	cfg := sc.ConfigT(maxSteps, total)
 	pr.Sched = sched.Run(t, cfg, func() {
 		in := pc.feed()
 		switch pc.Algo {
